@@ -516,7 +516,9 @@ func init() {
 	un(mInt+"ToLegacyDec", func(a string) string { return sApp("*", a, "S") }, iv)
 	un(mInt+"Int64", func(a string) string { return a }, iv)
 	un(mInt+"Uint64", func(a string) string { return a }, iv)
-	un(mInt+"IsInt64", func(a string) string { return "(and (<= (- 9223372036854775808) " + a + ") (< " + a + " 9223372036854775808))" }, bv)
+	un(mInt+"IsInt64", func(a string) string {
+		return "(and (<= (- 9223372036854775808) " + a + ") (< " + a + " 9223372036854775808))"
+	}, bv)
 	un(mInt+"Sign", func(a string) string { return sIte(sApp(">", a, "0"), "1", sIte(sApp("<", a, "0"), "(- 1)", "0")) }, iv)
 	for n, op := range map[string]string{"AddRaw": "+", "SubRaw": "-", "MulRaw": "*"} {
 		op := op
